@@ -26,6 +26,7 @@ class ConditionalExpressionTransformer(converter.Base):
   """Converts conditional expressions to functional form."""
 
   def visit_IfExp(self, node):
+    node = self.generic_visit(node)
     template = '''
         ag__.if_exp(
             test,
